@@ -19,7 +19,8 @@ PROP = "C09"
 PROPS_MODULE = "BiotiteModel.Props.C09"
 DRIVER_MODULE = "BiotiteModel.Driver.C09"
 EXT_MODULES = ["biotite.sequence.align.banded", "biotite.sequence.align.localgapped",
-               "biotite.sequence.align.localungapped", "biotite.sequence.align.tracetable"]
+               "biotite.sequence.align.localungapped", "biotite.sequence.align.tracetable",
+               "biotite.sequence.align.pairwise"]
 GEN_FILES = ["BiotiteModel/Gen/C09.lean"]
 RULE = ("seeded sequence pairs as in C08 (length 0-8 quick, a few long ones > INIT_SIZE to reach the table growth; alphabets of "
         "2-5 used symbols, code widths uint8/16/32/64, int matrices in [-6,6] any sign / asymmetric, linear and affine gaps) x "
